@@ -1,6 +1,8 @@
 (* Property C11: MPO.dagger and MPO.__add__ on weighted automata.
-   Only statements; every proof is `exact <lemma from Proofs/AutomatonP.v>`. *)
+   Only statements; every proof is `exact <lemma from Proofs/AutomatonP.v or Proofs/PropUIP.v>`. *)
 From TenpyV Require Import Base.Prelude Model.Automaton Proofs.AutomatonP.
+From TenpyV Require Model.PropUI Proofs.PropUIP.
+Import Model.PropUI.
 Open Scope Z_scope.
 
 (* the conjugated graph denotes the conjugated operator (operators on different sites commute) *)
@@ -50,8 +52,68 @@ Example T11_ex_dagger :
   hc 0 = 0 /\ denote (gdagger hc g) = [((3, -2), [(0%nat, 6); (2%nat, 5)])].
 Proof. vm_compute. split; reflexivity. Qed.
 
+(* ------------------------------------------------------------------ MPO.make_U_I
+   (Model/PropUI.v: on the graph of a finite MPO in standard sum form make_U_I drops the edges
+   leaving IdR and redirects every edge entering IdR to IdL with weight dt * w; the operator is the
+   sum over paths IdL ->* IdL.  Edge weights are monomials c * dt^d, so the graded automaton
+   ui_graph (degree 1 on redirected edges) is exact: ui_den d g is the coefficient of dt^d.
+   Tied to the code through these theorems, which link it to `denote` of Model/Automaton.v, and
+   through the numeric slope oracle only.) *)
+
+(* coefficient of dt^0 is the identity, for every graph in standard sum form (any length) *)
+Theorem T11_UI_order0 : forall g, std_form g = true -> ui_den 0 g = [(c1, [])].
+Proof. exact PropUIP.UI_order0_eq. Qed.
+
+(* coefficient of dt^1 is exactly H (as lists of monomials, not only up to reordering) *)
+Theorem T11_UI_order1 : forall g, std_form g = true -> ui_den 1 g = denote g.
+Proof. exact PropUIP.UI_order1_eq. Qed.
+
+(* the graded semantics is the Taylor expansion of the evaluated propagator MPO, for every time
+   step t (Gaussian integer) and every graph; degrees above the chain length do not occur *)
+Theorem T11_UI_eval : forall t g, peq (denote_to IdL (ui_eval t g)) (ui_taylor t g).
+Proof. exact PropUIP.UI_eval. Qed.
+
+(* U_I(t) = 1 + t H + sum_{d >= 2} t^d (coefficient d) *)
+Theorem T11_UI_first_order : forall t g, std_form g = true ->
+  peq (denote_to IdL (ui_eval t g))
+      ((c1, []) :: pscale t (denote g) ++
+       flat_map (fun d => pscale (cpow t d) (ui_den d g)) (seq 2 (length g - 1))).
+Proof. exact PropUIP.UI_first_order. Qed.
+
+(* the coefficient of dt^2 is the sum over cut positions m of (terms of H entering IdR exactly on
+   site m) * (terms of H on the sites > m): exactly the products of NON-overlapping terms *)
+Theorem T11_UI_order2 : forall g, std_form g = true -> peq (ui_den 2 g) (ui_order2 g).
+Proof. exact PropUIP.UI_order2. Qed.
+
+(* the first factors of ui_order2 are all the terms of H, each exactly once *)
+Theorem T11_UI_terms_split : forall g, std_form g = true ->
+  peq (denote g) (flat_map (ui_terms_at g 0 IdL) (seq 0 (length g))).
+Proof. exact PropUIP.UI_terms_split. Qed.
+
+Example T11_ex_UI_std : std_form PropUIP.ui_ex_g = true /\ std_form PropUIP.ui_ex_g3 = true /\ PropUIP.ui_ex_g <> [].
+Proof. exact PropUIP.ui_ex_std. Qed.
+Example T11_ex_UI_order0 : ui_den 0 PropUIP.ui_ex_g = [(c1, [])] /\ ui_den 0 PropUIP.ui_ex_g3 = [(c1, [])].
+Proof. exact PropUIP.ui_ex_order0. Qed.
+Example T11_ex_UI_eval :
+  peqb (denote_to IdL (ui_eval (2, 1) PropUIP.ui_ex_g)) (ui_taylor (2, 1) PropUIP.ui_ex_g) = true /\
+  check_UI ((2, 1), PropUIP.ui_ex_g, ui_eval (2, 1) PropUIP.ui_ex_g) = true /\
+  normalize (denote_to IdL (ui_eval (2, 1) PropUIP.ui_ex_g3)) =
+    [((1, 0), []); ((4, 7), [(0%nat, 5); (2%nat, 6)]); ((14, 7), [(1%nat, 4)]);
+     ((2, 1), [(1%nat, 5); (2%nat, 6)])].
+Proof. exact PropUIP.ui_ex_eval. Qed.
+(* the hypothesis std_form is needed *)
+Example T11_ex_UI_nonstd :
+  std_form PropUIP.ui_ex_bad = false /\ peqb (ui_den 0 PropUIP.ui_ex_bad) [(c1, [])] = false.
+Proof. exact PropUIP.ui_ex_nonstd. Qed.
+
 Print Assumptions T11_dagger.
 Print Assumptions T11_scale_first.
 Print Assumptions T11_add.
 Print Assumptions T11_plus_identity.
 Print Assumptions T11_peqb_complete.
+Print Assumptions T11_UI_order0.
+Print Assumptions T11_UI_order1.
+Print Assumptions T11_UI_eval.
+Print Assumptions T11_UI_first_order.
+Print Assumptions T11_UI_order2.
+Print Assumptions T11_UI_terms_split.
